@@ -64,6 +64,47 @@ PROPS["C17"] = {
     "explanation": "",
 }
 
+PROPS["C02"] = {
+    "engines": ["S"],
+    "bounds": [],
+    "outside_bounds": [],
+    "stubs": [],
+    "assumptions": [],
+    "explanation": "",
+}
+PROPS["C03"] = {
+    "engines": ["S"],
+    "bounds": [],
+    "outside_bounds": [],
+    "stubs": [],
+    "assumptions": [],
+    "explanation": "",
+}
+PROPS["C04"] = {
+    "engines": ["S"],
+    "bounds": [],
+    "outside_bounds": [],
+    "stubs": [],
+    "assumptions": [],
+    "explanation": "",
+}
+PROPS["C08"] = {
+    "engines": ["S"],
+    "bounds": [],
+    "outside_bounds": [],
+    "stubs": [],
+    "assumptions": [],
+    "explanation": "",
+}
+PROPS["C16"] = {
+    "engines": ["S"],
+    "bounds": [],
+    "outside_bounds": [],
+    "stubs": [],
+    "assumptions": [],
+    "explanation": "",
+}
+
 HOOK_COMMITS = ["3b45d39", "83997c5"]
 
 # Every property that has no entry in PROPS is listed with its reason.
